@@ -160,6 +160,11 @@ def work(p):
         subf = gm.FuncSpec(67, "sub_family", [], "module", "plain")
         subf.params = [gm.Param("v", "normal", vals=["A()", "B()", "C()", "D()", "M()"]), gm.Param("w", "normal", vals=["[B()]", "[A()]", "[D()]", "[C()]", "[M()]"])]
         subf.ret_vals = ["D()", "A()", "B()", "M()", "C()"]
+        # an empty and a non-empty container of one kind beside a member that itself contains a union (the default chain's empty-container
+        # rule must not depend on which of them it meets first)
+        empf = gm.FuncSpec(66, "empties_family", [], "module", "plain")
+        empf.params = [gm.Param("s", "normal", vals=["set()", "{1}", "{'ea': 1, 'eb': 's'}", "[1, 's']"]), gm.Param("l", "normal", vals=["[]", "[1]", "({1: 1, 2: 's'},)", "{'k': [1, None]}"])]
+        empf.ret_vals = ["{}", "{1: 2}", "[{'ec': 1}]", "[{'ec': 's'}]"]
         abcf = gm.FuncSpec(96, "abc_family", [], "module", "plain")
         abcf.params = [gm.Param("h", "normal", vals=["AH1()", "AH2()", "AH3()", "AH4()", "AH5()", "AH6()"])]
         abcf.ret_vals = ["AH2()", "AH1()", "AH4()", "AH3()", "AH6()", "AH5()"]
@@ -199,7 +204,7 @@ def work(p):
         ovf.params = [gm.Param("rows", "normal", vals=["[{'q': 1}, {'r': 2.5}]", "[{'r': 'x', 's': 1}]", "[{'t': None, 'u': b'x'}]", "[{'q': 1, 'v': A()}]",
                                                          "[{'q': 1, 'w': (1,)}, {'q': 2}]"])]
         ovf.ret_vals = ["[{'ra': 1}, {'rb': 2.5}]", "[{'rc': 'x', 'rd': 1}, {'re': None}]", "[{'rf': b'x'}]"]
-        extra = [fam, tdf, tup, abcf, subf] + dds + [hist, yf, recf, cfgf] + owns + [ovf]
+        extra = [fam, tdf, tup, abcf, subf, empf] + dds + [hist, yf, recf, cfgf] + owns + [ovf]
         nfixed = len(extra)
         if spec.get("collide"):
             # pinned witness of the listed finding: two functions share a parameter name and get differently shaped dicts
@@ -218,7 +223,7 @@ def work(p):
             res.violation("harness:module-does-not-import", repr(e), {"source": m.source})
             continue
         k = spec["k"]
-        plan = m.call_plan(rng, None, ncalls=(4, 12)) + [(fam, [v], {}) for v in fam.params[0].vals] + [(tdf, [v, w], {}) for v, w in zip(tdf.params[0].vals, tdf.params[1].vals)] + [(tup, [v], {}) for v in tup.params[0].vals] + [(abcf, [v], {}) for v in abcf.params[0].vals] + [(subf, [v, w], {}) for v, w in zip(subf.params[0].vals, subf.params[1].vals)]
+        plan = m.call_plan(rng, None, ncalls=(4, 12)) + [(fam, [v], {}) for v in fam.params[0].vals] + [(tdf, [v, w], {}) for v, w in zip(tdf.params[0].vals, tdf.params[1].vals)] + [(tup, [v], {}) for v in tup.params[0].vals] + [(abcf, [v], {}) for v in abcf.params[0].vals] + [(subf, [v, w], {}) for v, w in zip(subf.params[0].vals, subf.params[1].vals)] + [(empf, [v, w], {}) for v, w in zip(empf.params[0].vals, empf.params[1].vals)]
         plan += [(f, [v], {}) for f in dds for v in f.params[0].vals] + [(hist, [v, w], {}) for v in hist.params[0].vals for w in hist.params[1].vals]
         plan += [(f, [f.params[0].vals[0]], {}) for f in extra[nfixed:]] + [(yf, ["1"], {})] * 3
         plan += [(cfgf, [v, w], {}) for v, w in zip(cfgf.params[0].vals, cfgf.params[1].vals)]
